@@ -543,6 +543,28 @@ func (k *checker) randomBytes() {
 
 // extraProbes: a few directed inputs outside the enumerations.
 func (k *checker) extraProbes() {
+	// a date range whose bound is not a whole second (the enumerated JSON cases
+	// use whole seconds): the test index has dates at 03:04:05 and 03:04:06
+	for i, st := range []time.Time{time.Date(2020, 1, 2, 3, 4, 5, 500000000, time.UTC), time.Date(2020, 1, 2, 3, 4, 5, 1, time.UTC)} {
+		dq := bleve.NewDateRangeQuery(st, time.Time{})
+		dq.SetField("d")
+		j, err := json.Marshal(dq)
+		if err != nil {
+			continue
+		}
+		back, err := query.ParseQuery(j)
+		if err != nil {
+			k.c.Violation("C17/json-parse-back-fails", fmt.Sprintf("date range %s: %v", j, err), map[string]any{"kind": "daterange-subsecond", "nanos": st.Nanosecond()})
+			continue
+		}
+		if r1, r2 := runQuery(k.idx, dq), runQuery(k.idx, back); r1 != r2 {
+			k.c.Violation("C17/daterange-subsecond-truncated",
+				fmt.Sprintf("DateRangeQuery(start=%s) serialises to %s (whole seconds) and parses back to a query with other hits\n original:   %s\n round trip: %s", st.Format(time.RFC3339Nano), j, r1.View, r2.View),
+				map[string]any{"kind": "daterange-subsecond", "nanos": st.Nanosecond()})
+		}
+		k.c.Eval(1)
+		k.c.Distinct(fmt.Sprintf("daterange-subsecond:%d", i))
+	}
 	for _, s := range []string{"\\", "\"", "a\\", "\"a\\", "^", "~", "a:\"", "/", "a:/", strings.Repeat("\\", 33), strings.Repeat("\"", 7),
 		strings.Repeat("a:", 40), "a^" + strings.Repeat("9", 400), "a~" + strings.Repeat("9", 400), "a:>" + strings.Repeat("9", 400),
 		"\xff\xfe:\xfd", "a\x00b", "+\x00", "\u00a0a\u0085b", "a:>=\"2020-01-02\"^2", "１２３", "a:１"} {
@@ -653,6 +675,8 @@ func replay(c *core.Ctx, path string) error {
 				c.Violation("C17/"+p.sig, p.what, cs)
 			}
 		}
+	case "daterange-subsecond":
+		k.extraProbes()
 	default:
 		return fmt.Errorf("unknown replay kind %q", f.Replay.Kind)
 	}
